@@ -10,12 +10,20 @@
 (***************************************************************************)
 EXTENDS Blocks, Json
 
-BaseSets ==
+CONSTANT Deep       \* thorough tier: more and larger base sets
+
+QuickSets ==
   [s1 |-> <<"t1", "t2", "getB", "tag1", "e1">>,
    s2 |-> <<"tag1", "tag2", "urlT", "tagged", "t1">>,
    s3 |-> <<"urlA", "sim", "rpc", "srv", "info">>,
    s4 |-> <<"mac", "useM", "t4", "e1", "urlAI">>,
    s5 |-> <<"tag1", "tag2", "urlT", "getB", "t1">>]
+DeepSets ==
+  [s6 |-> <<"t1", "reqT", "tAny", "srv2", "srv", "infoV">>,
+   s7 |-> <<"mac", "mac2", "t1", "bodyT", "tag1", "pathM">>,
+   s8 |-> <<"tag1", "tag2", "rpcT", "rpc", "e1", "enumQ">>,
+   s9 |-> <<"t2", "t1", "t4", "e1", "t3", "qnf">>]
+BaseSets == IF Deep THEN QuickSets @@ DeepSets ELSE QuickSets
 
 VARIABLES base, perm
 vars == <<base, perm>>
